@@ -190,3 +190,22 @@ theorem linear_clamp_safe (cv : Conv) (w : Nat) (lo hi sz : List Nat) (qs : List
     omega
 
 end Covfie.C10
+
+namespace Covfie.C10
+/-- on finite values the layer's clamp is `max lo (min hi x)` — the one-line definition the exhaustive narrow-type sweeps of the
+    harness evaluate for every value of an 8- or 16-bit coordinate type -/
+theorem clampNum_eq_max_min (lo hi x : ℚ) (h : lo ≤ hi) : clampNum (.fin lo) (.fin hi) (.fin x) = .fin (max lo (min hi x)) := by
+  simp only [clampNum, Num.lt, decide_eq_true_eq]
+  by_cases h1 : x < lo
+  · simp only [h1, if_true]
+    congr 1
+    rw [min_eq_right (by linarith), max_eq_left (le_of_lt h1)]
+  · simp only [h1, if_false]
+    by_cases h2 : hi < x
+    · simp only [h2, if_true]
+      congr 1
+      rw [min_eq_left (le_of_lt h2), max_eq_right h]
+    · simp only [h2, if_false]
+      congr 1
+      rw [min_eq_right (not_lt.mp h2), max_eq_right (not_lt.mp h1)]
+end Covfie.C10
